@@ -18,7 +18,11 @@ CGO_ENABLED=0 go build $MODFLAG -overlay .work/overlay.json -tags e4 -o bin/vche
 iters=2000; [ "$tier" = thorough ] && iters=20000
 rm -f .work/race.json
 if CGO_ENABLED=1 go build $MODFLAG -race -o bin/vrace19 ./cmd/vrace19 2> .work/buildrace.log; then
-  GORACE="halt_on_error=0" ./bin/vrace19 $iters > .work/race.out 2> .work/race.log
+  # a deadlock introduced into the code under test would make the free-running pass hang for ever:
+  # it normally needs well under a minute, so after 15 (thorough 40) minutes it is stopped and reported
+  limit=900; [ "$tier" = thorough ] && limit=2400
+  GORACE="halt_on_error=0" timeout -k 5 $limit ./bin/vrace19 $iters > .work/race.out 2> .work/race.log; racerc=$?
+  [ $racerc = 124 ] || [ $racerc = 137 ] && echo "RACE-PASS-HUNG after ${limit}s" >> .work/race.log
   python3 - <<PY
 import json,re
 log=open('.work/race.log').read()
@@ -29,7 +33,7 @@ if reports:
     m=re.search(r'/repo/([A-Za-z]+/[A-Za-z_0-9]+\.go)', first); site=m.group(1) if m else 'unknown'
 try: summary=json.loads(open('.work/race.out').read().strip().splitlines()[-1])
 except Exception as e: summary={'error':'race pass produced no summary','stderr':log[:500]}
-summary.update({'reports':reports,'first_site':site,'first_report':first,'iterations_per_harness':$iters})
+summary.update({'reports':reports,'first_site':site,'first_report':first,'iterations_per_harness':$iters,'hung':'RACE-PASS-HUNG' in log})
 json.dump(summary,open('.work/race.json','w'))
 PY
 else
